@@ -55,6 +55,7 @@ def preload_path(name="vf_heapshuffle"):
 
 def prepare(chk):
     core.build("ubsan")
+    core.build("plain")
     preload_path()
     preload_path("vf_faketime")
     make_locale(os.path.join(core.CACHE, "locale"))
@@ -123,7 +124,53 @@ def mask_id(data, ident):
     return re.sub(rb"\b" + ident + rb"\b", b"<ID>", data)
 
 
+def run_memcheck(ctx, case):
+    """An uninitialised value that reaches the output is nondeterminism that equal runs on one machine may never
+    show (the stack garbage can be the same every time): valgrind memcheck observes the use itself."""
+    import re as _re
+    res = core.CaseResult()
+    b = core.build("plain")
+    d = ctx.casedir(case["id"])
+    if case.get("files"):
+        libgen.write_files(d, case["files"])
+    else:
+        libgen.generate(random.Random(case["libseed"]), "liba", size=case.get("size", 1.0), ordering=True,
+                        n_classes=4, ext=True, opaque=True).write(d)
+    opts = BACKENDS[case["backend"]]
+    cmd = ["valgrind", "--error-exitcode=77", "-q", b.interrogate] + tools.CPP_DEFS + \
+        ["-S" + b.parser_inc, "-I" + d, "-S" + os.path.join(d, "sys"), "-oc", os.path.join(d, "liba_igate.cxx"),
+         "-od", os.path.join(d, "liba.in"), "-oh", os.path.join(d, "liba.txt"), "-module", "mod", "-library", "liba"] + \
+        opts + [os.path.join(d, "liba.h")]
+    r = core.run(cmd, timeout=900, env={"SOURCE_DATE_EPOCH": "1000000"}, cwd=d)
+    res.count("memcheck_runs")
+    if r.timed_out:
+        res.inconclusive = "memcheck timed out"
+    elif r.rc == 77 or "uninitialised" in r.err:
+        m = _re.search(r"==\d+== (Conditional jump or move depends on uninitialised|Use of uninitialised|Syscall param \S+ points to uninitialised)", r.err)
+        frames = _re.findall(r"(?:at|by) 0x[0-9A-F]+: (\w[\w:]*)", r.err)
+        proj = [f for f in frames if not f.startswith(("std::", "__", "_IO", "operator"))][:2]
+        res.violation("uninitialised-value-used:backend=%s:%s" % (case["backend"], ">".join(proj) or "?"),
+                      err=r.err[:1500], replay_case=dict(case, files=libgen.read_files(d)))
+    elif r.rc != 0:
+        res.inconclusive = "interrogate under valgrind failed: " + r.how()
+    else:
+        res.features.add(f"{case['backend']}:memcheck")
+        if "-python-native" in opts:
+            cmd = ["valgrind", "--error-exitcode=77", "-q", b.interrogate_module, "-oc", os.path.join(d, "mod_module.cxx"),
+                   "-module", "mod", "-library", "mod", "-python-native", os.path.join(d, "liba.in")]
+            r2 = core.run(cmd, timeout=900, env={"SOURCE_DATE_EPOCH": "1000000"}, cwd=d)
+            res.count("memcheck_runs")
+            if r2.rc == 77 or "uninitialised" in r2.err:
+                res.violation("uninitialised-value-used:tool=interrogate_module", err=r2.err[:1500],
+                              replay_case=dict(case, files=libgen.read_files(d)))
+    res.sample = dict(backend=case["backend"], mode="memcheck")
+    shutil.rmtree(d, ignore_errors=True)
+    return res
+
+
 def run_case(ctx, case):
+    if case.get("mode") == "memcheck":
+        return run_memcheck(ctx, case)
     res = core.CaseResult()
     b = core.build("ubsan")
     d = ctx.casedir(case["id"])
@@ -208,4 +255,8 @@ def main(chk):
             t1 = rng.randrange(10 ** 9, 2 * 10 ** 9)
             cases.append(dict(id=cid, libseed=libseed, backend=be, perts=perts, size=0.8,
                               noepoch=[t1, t1 + rng.randrange(1, 10 ** 6)]))
+    for i in range(chk.pick(4, 24)):
+        cid += 1
+        cases.append(dict(id=cid, mode="memcheck", libseed=rng.randrange(1 << 30), backend=["c", "native", "python", "all3"][i % 4],
+                          size=0.8))
     chk.run_cases(__name__, cases)
